@@ -346,18 +346,6 @@ Section Brackets.
     - intros fwd s Es. rewrite Hs in Es. discriminate.
   Qed.
 
-  Fixpoint simple (n : node) : bool :=
-    match n with
-    | NCat l => forallb simple l
-    | NAlt a b => simple a && simple b
-    | NCaptureGroup _ c _ => simple c
-    | NLookaround _ _ _ _ c => simple c
-    | NLoop b _ _ _ _ _ => simple b
-    | NLoop1CharBody b _ _ _ => simple b
-    | NByteSequence _ | NByteSet _ | NBackRef _ _ | NStringSet _ _ => false
-    | _ => true
-    end.
-
   Theorem al_simple : forall n, simple n = true -> al n.
   Proof.
     induction n as [n Hleaf|l H|a b IHa IHb|id c nm IHc|neg bw sg eg c IHc|b mn mx g egs ege IHb|b mn mx g IHb] using node_ind2;
